@@ -19,7 +19,7 @@ ASSUMPTIONS = ['property models are monotone in T on 250-500 K for the drawn com
                'mixed temperature is required to land in 200-600 K, otherwise the case is counted as rejected (outside model range)',
                'tolerances from Mixture.T_tol = 1e-6 K (DESIGN.md section 4)']
 REQUIRED_CELLS = {'quick': ['mix:recv=S', 'mix:recv=M', 'mix:multi-inlet', 'mix:Q!=0', 'mix:heat-object', 'mix:self',
-                            'set:H', 'set:h', 'set:S', 'set:Hnet', 'set:multi', 'sep:multi', 'sep:other-at-mixture-T', 'mix:empty-inlet-lowest-P', 'mixvle:Q!=0', 'set:PR'], 'thorough': []}
+                            'set:H', 'set:h', 'set:S', 'set:Hnet', 'set:multi', 'sep:multi', 'sep:other-at-mixture-T', 'mix:empty-inlet-lowest-P', 'mixvle:Q!=0', 'set:PR', 'set:T*=Tref', 'mix:all-inlets-at-Tref'], 'thorough': []}
 
 PKGS = ['A', 'B', 'C', 'D']
 T_TOL = 1e-6
@@ -75,6 +75,9 @@ def prop_mix(ch, ctx):
     op = ch.choice('op', ['mix_from', 'mix_from', 'sum'])
     th = chem.package(recv_pkg)
     tmo.settings.set_thermo(th)
+    if ch.choice('inlets.all_at_Tref', [False, False, False, True]):
+        for sp in specs: sp['T'] = 298.15      # liquid inlets of liquid-reference chemicals: sum(H_in) is exactly 0
+        ctx.cell('mix:all-inlets-at-Tref')
     inlets = [vs.build(sp) for sp in specs]
     if self_idx >= 0:
         recv = inlets[self_idx]
@@ -246,6 +249,9 @@ def prop_setter(ch, ctx):
     # open interval: several heat-capacity correlations end exactly at 500 K / 250 K and jump by ~1e-6 relative there
     Tstar = ch.float('T*', 250.5, 499.5)
     T0 = ch.float('T0', 250.5, 499.5)
+    if ch.choice('T*.special', [None, None, None, 298.15]) is not None and mixture_kind != 'PR':
+        Tstar = 298.15      # the reference temperature: the assigned enthalpy can be exactly 0.0
+        ctx.cell('set:T*=Tref')
     if mixture_kind == 'PR':
         # keep 40 K away from the ends of the range on which monotonicity is verified: just outside it the EOS
         # enthalpy turns (found by the thorough tier: H(250.5 K) is reached again at 220 K, a legitimate second root)
@@ -263,7 +269,7 @@ def prop_setter(ch, ctx):
                 if v and c.Tc: Tc_min = c.Tc if Tc_min is None else min(Tc_min, c.Tc)
     if Tc_min is not None:
         hi = min(499.5, 0.9 * Tc_min)
-        Tstar = 250.5 + (Tstar - 250.5) * (hi - 250.5) / 249.0
+        if Tstar != 298.15: Tstar = 250.5 + (Tstar - 250.5) * (hi - 250.5) / 249.0
         T0 = 250.5 + (T0 - 250.5) * (hi - 250.5) / 249.0
     if not cn_positive(s): ctx.reject('non-monotone enthalpy model for this composition')
     if mixture_kind == 'PR':
